@@ -6,20 +6,20 @@ From Morfuse Require Import Base.Arr C18str.Model C18str.Spec C18str.ProofsLib C
   C18str.ProofsOps C18str.ProofsStep.
 Import ListNotations.
 
-Lemma run_from_refines nv ops : forall s a,
-  Inv nv s a -> safe_from nv a ops = true -> run_from nv s ops = map Ok (spec_from nv a ops).
+Lemma run_from_refines nv ops : forall s a h,
+  Inv nv s a h -> safe_from nv a h ops = true -> run_from nv s ops = map Ok (spec_from nv a ops).
 Proof.
-  induction ops as [|o ops IH]; intros s a HI Hs; [reflexivity|].
+  induction ops as [|o ops IH]; intros s a h HI Hs; [reflexivity|].
   cbn [safe_from] in Hs. apply andb_prop in Hs. destruct Hs as [Hpre Hs].
-  destruct (step_sim nv s a o HI Hpre) as [s' [Hstep HI']].
+  destruct (step_sim nv s a h o HI Hpre) as [s' [Hstep HI']].
   cbn [run_from spec_from]. rewrite Hstep.
   destruct (spec_step a o) as [a' r] eqn:E. cbn [fst snd] in *.
-  rewrite (observe_ok nv s' a' HI'). cbn [map]. f_equal. now apply IH.
+  rewrite (observe_ok nv s' a' _ HI'). cbn [map]. f_equal. eapply IH; eauto.
 Qed.
 
 Theorem run_refines_spec nv ops :
   safe nv ops = true -> run nv ops = map Ok (spec_run nv ops).
-Proof. intro H. apply run_from_refines; [apply Inv_init|exact H]. Qed.
+Proof. intro H. eapply run_from_refines; [apply Inv_init|exact H]. Qed.
 
 (* the variable an operation may change *)
 Definition target (o : op) : option N :=
@@ -41,9 +41,10 @@ Proof.
   - destruct (Z.leb c 0); [reflexivity|apply Hs; exact Ht].
 Qed.
 
-(* ---- refutations: the full statement  forall nv ops, run nv ops = map Ok (spec_run nv ops)
-   is false of the faithful model.  One history per defect; each is re-run against the real
-   code by props/C18str.py (WITNESSES), where the implementation behaves as the model. ---- *)
+(* ---- what is still false of the faithful model: the full statement
+     forall nv ops, run nv ops = map Ok (spec_run nv ops)
+   needs the preconditions of Spec.pre.  One history per reason; each is re-run against the
+   real code by props/C18str.py (WITNESSES), where the implementation behaves as the model. *)
 
 Definition hello : list N := [104; 101; 108; 108; 111]%N.
 Definition abc : list N := [97; 98; 99]%N.
@@ -53,43 +54,28 @@ Definition differs (nv : nat) (ops : list op) : Prop := run nv ops <> map Ok (sp
 
 Ltac refute := unfold differs; let H := fresh "H" in (intro H; vm_compute in H; discriminate H).
 
-(* resize(n) beyond the capacity: the reallocated strdata has len = 0, the zero fill starts at 0 *)
-Lemma resize_grow_differs : differs 1 [OSetLit 0 hello; OResize 0 8].
+(* the code's own asserted precondition: tolower() / toupper() / the non-const operator[] on a
+   string without storage dereference the null m_data *)
+Lemma tolower_null_differs : differs 1 [OLower 0].
 Proof. refute. Qed.
-(* resize(n) below the length stores no terminator *)
-Lemma resize_shrink_differs : differs 1 [OSetLit 0 hello; OResize 0 3].
+Lemma index_null_differs : differs 1 [OSetChar 0 0 65].
 Proof. refute. Qed.
-(* resize(0) of a null string dereferences m_data *)
-Lemma resize_null_differs : differs 1 [OResize 0 0].
+
+(* strings that hold 0 bytes (after a growing resize): the storage copies are C-string copies.
+   EnsureAlloced(keepold) copies up to the first 0 but keeps len: the bytes behind it are
+   uninitialised, and once the first byte is set c_str() runs beyond the storage *)
+Lemma realloc_after_resize_differs : differs 1 [OResize 0 3; OReserve 0 20; OSetChar 0 0 65].
 Proof. refute. Qed.
-(* reserve(n) beyond the capacity: length() becomes 0 *)
-Lemma reserve_differs : differs 1 [OSetLit 0 hello; OReserve 0 20].
+(* the same in EnsureDataWritable (copyn stops at the first 0) *)
+Lemma unshare_after_resize_differs :
+  differs 2 [OResize 0 3; OCopy 1 0; OSetChar 0 1 66; OSetChar 0 0 65].
 Proof. refute. Qed.
-(* ... and the next append overflows the storage it sizes from that length *)
-Lemma reserve_append_differs : differs 1 [OSetLit 0 hello; OReserve 0 20; OAppendLit 0 [88%N]].
+(* append continues at the first 0 byte, not at length() *)
+Lemma append_after_resize_differs : differs 1 [OResize 0 8; OAppendLit 0 [88; 89]%N].
 Proof. refute. Qed.
-(* assign("", 0) on a null string dereferences m_data *)
-Lemma assign_null_differs : differs 1 [OAssignN 0 []].
-Proof. refute. Qed.
-(* assign after a reallocation (alloced = 0): the old text is copied into n + 1 bytes *)
-Lemma assign_after_growth_differs :
-  differs 1 [OSetLit 0 [104; 105]%N; OAppendLit 0 hello_world; OAssignN 0 [120%N]].
-Proof. refute. Qed.
-(* append("") to a null string dereferences m_data *)
-Lemma append_empty_differs : differs 1 [OAppendLit 0 []].
-Proof. refute. Qed.
-Lemma append_str_empty_differs : differs 2 [OAppendStr 0 1].
-Proof. refute. Qed.
-(* a.append(a): the source is the destination buffer *)
-Lemma self_append_differs : differs 1 [OSetLit 0 [97; 98]%N; OAppendStr 0 0].
-Proof. refute. Qed.
-(* EnsureDataWritable on shared storage of length 0: EnsureAlloced(1) allocates nothing *)
-Lemma index_shared_empty_differs :
-  differs 2 [OSetLit 0 abc; OMinus 0 3; OCopy 1 0; OSetChar 0 0 65].
-Proof. refute. Qed.
-Lemma tolower_shared_empty_differs :
-  differs 2 [OSetLit 0 abc; OCap 0 0; OCopy 1 0; OLower 0].
+(* a = a.c_str() is "the same thing": the length is not recomputed *)
+Lemma assign_own_cstr_after_resize_differs : differs 1 [OSetLit 0 hello; OResize 0 8; OAssignCstr 0 0].
 Proof. refute. Qed.
 
 Lemma full_alphabet_refuted : exists nv ops, run nv ops <> map Ok (spec_run nv ops).
-Proof. exists 1, [OSetLit 0%N hello; OResize 0%N 8]. exact resize_grow_differs. Qed.
+Proof. exists 1, [OResize 0%N 3; OReserve 0%N 20; OSetChar 0%N 0 65%N]. exact realloc_after_resize_differs. Qed.
